@@ -21,6 +21,20 @@ Definition cpp_cfg (subspan_clamped : bool) : cfg :=
   {| ov := fun _ n => n; up_front := true; little := false; al := fun _ => false; len_chk_storage := false; guarded := false;
      ptr_clamp := subspan_clamped; bulk_on := false |}.
 
+(* the byte index (relative to data_.data()) of the pointer any_bitspan::subspan() hands to the nested span, as the arithmetic term
+   SCANNED from the support header (newSize inlined); size_t subtraction never goes below zero in the recognised shapes *)
+Inductive sexp : Type :=
+| SOff | SSize | SZero
+| SSub (a b : sexp) | SMin (a b : sexp)
+| SIfLt (a b t e : sexp).          (* (a < b) ? t : e *)
+Fixpoint seval (e : sexp) (size offb : nat) : nat :=
+  match e with
+  | SOff => offb | SSize => size | SZero => 0
+  | SSub a b => seval a size offb - seval b size offb
+  | SMin a b => Nat.min (seval a size offb) (seval b size offb)
+  | SIfLt a b t e' => if seval a size offb <? seval b size offb then seval t size offb else seval e' size offb
+  end.
+
 (* ---- 2. variable-length array: scanned statements ---- *)
 Inductive lstmt : Type := LTmp | LDecodeTmp | LDecodeIdx | LPushBack.
 Inductive vstmt : Type :=
